@@ -178,6 +178,48 @@ func genC17Tuning(r *core.Rng) any {
 	return c
 }
 
+// genC17Glueless: boxes separated mostly by penalties (text of a script without spaces, long words with
+// hyphenation points) and a few spaces, on a narrow measure: every complete breaking has lines without
+// any stretchable glue, so the stretch limit has to be relaxed, and only as far as needed.
+func genC17Glueless(r *core.Rng) any {
+	for {
+		var items []c17Item
+		integer := r.Bool()
+		items = append(items, c17Item{K: 0, W: 0})
+		n := r.IntRange(4, 9)
+		total := 0.0
+		for i := 0; i < n; i++ {
+			bw := r.Range(5, 70)
+			if integer {
+				bw = math.Round(bw/5) * 5
+			}
+			items = append(items, c17Item{K: 0, W: bw})
+			total += bw
+			if i == n-1 {
+				break
+			}
+			if r.Chance(0.25) {
+				w := r.Range(3, 10)
+				if integer {
+					w = math.Round(w)
+				}
+				items = append(items, c17Item{K: 1, W: w, Y: w / 2, Z: w / 3})
+			} else {
+				items = append(items, c17Item{K: 2, W: 0, P: core.PickF(r, []float64{0, 0, 50}), F: r.Chance(0.3)})
+			}
+		}
+		items = append(items, c17Item{K: 1, W: 0, Y: kpInf, Z: 0}, c17Item{K: 2, W: 0, P: -kpInf, F: false})
+		width := r.Range(70, 130)
+		if integer {
+			width = 100
+		}
+		if total < width {
+			continue
+		}
+		return &c17Case{Items: items, Width: width, Kind: "glueless"}
+	}
+}
+
 func genC17Paragraph(r *core.Rng) any { return genC17Para(r, false) }
 func genC17Long(r *core.Rng) any      { return genC17Para(r, true) }
 
@@ -266,7 +308,9 @@ func c17Check(ci any, o *core.Obs) {
 	if len(c.Tune) == 4 {
 		p.Tolerance, p.DemeritsLine, p.DemeritsFlagged, p.DemeritsFitness = c.Tune[0], c.Tune[1], c.Tune[2], c.Tune[3]
 		text.Tolerance, text.DemeritsLine, text.DemeritsFlagged, text.DemeritsFitness = c.Tune[0], c.Tune[1], c.Tune[2], c.Tune[3]
-		defer func() { text.Tolerance, text.DemeritsLine, text.DemeritsFlagged, text.DemeritsFitness = 2, 10, 100, 100 }()
+		defer func() {
+			text.Tolerance, text.DemeritsLine, text.DemeritsFlagged, text.DemeritsFitness = 2, 10, 100, 100
+		}()
 	}
 	ref := c.ref()
 	items := c.lib()
@@ -367,6 +411,41 @@ func c17Check(ci any, o *core.Obs) {
 	}
 	// (3)-(5)
 	dem := refkp.Demerits(ref, pos, c.Width, p)
+	// A verdict on feasibility, optimality or relaxation is only given when it does not hinge on a line
+	// whose ratio is exactly -1 (or exactly the tolerance): the library's ratios are differences of
+	// running sums and may land an ulp on either side. The reference is asked again for measures a
+	// billionth narrower and wider; if the two answers differ, the case is decided by rounding.
+	dyadic := func(x float64) bool { return x == math.Trunc(x*64)/64 && math.Abs(x) < 1e9 }
+	exact := dyadic(c.Width)
+	for _, it := range c.Items {
+		if !(dyadic(it.W) && (dyadic(it.Y) || it.Y == kpInf) && dyadic(it.Z)) {
+			exact = false
+		}
+	}
+	borderline := func() bool {
+		if exact {
+			return false // all sums are exact in floating point: a ratio of exactly -1 is exactly -1
+		}
+		var a, b refkp.Result
+		if long {
+			fa, ma := refkp.SearchDP(ref, c.Width*(1-1e-9), p)
+			fb, mb := refkp.SearchDP(ref, c.Width*(1+1e-9), p)
+			a, b = refkp.Result{Feasible: fa, MinDemerits: ma}, refkp.Result{Feasible: fb, MinDemerits: mb}
+		} else {
+			a, b = refkp.Search(ref, c.Width*(1-1e-9), p), refkp.Search(ref, c.Width*(1+1e-9), p)
+		}
+		differ := func(x, y float64) bool {
+			if math.IsInf(x, 0) || math.IsInf(y, 0) {
+				return x != y
+			}
+			return math.Abs(x-y) > 1e-4*(1+math.Abs(x))
+		}
+		if a.Feasible != b.Feasible || a.Shrinkable != b.Shrinkable || (a.Feasible && differ(a.MinDemerits, b.MinDemerits)) || (!long && !a.Feasible && a.Shrinkable && differ(a.MinMaxRatio, b.MinMaxRatio)) {
+			o.Count("verdicts_left_to_rounding", 1)
+			return true
+		}
+		return false
+	}
 	o.Decided(1)
 	if long && !res.Feasible {
 		o.Count("long_instances_without_feasible_breaking_not_decided", 1)
@@ -376,31 +455,45 @@ func c17Check(ci any, o *core.Obs) {
 	case res.Feasible:
 		o.Count("feasible_instances", 1)
 		if !ok {
-			o.Fail("false-overflow", "Linebreak reports overflow although a breaking within [-1,Tolerance] exists; %s", c17Str(c))
+			if !borderline() {
+				o.Fail("false-overflow", "Linebreak reports overflow although a breaking within [-1,Tolerance] exists; %s", c17Str(c))
+			}
 		}
 		if minR < -1-1e-9 || maxR > p.Tolerance+1e-9 {
-			o.Fail("infeasible-result", "a breaking with all ratios in [-1,%g] exists, but the returned %v has ratios in [%.6g,%.6g]; %s", p.Tolerance, pos, minR, maxR, c17Str(c))
+			if !borderline() {
+				o.Fail("infeasible-result", "a breaking with all ratios in [-1,%g] exists, but the returned %v has ratios in [%.6g,%.6g]; %s", p.Tolerance, pos, minR, maxR, c17Str(c))
+			}
 		} else if dem > res.MinDemerits+1e-9*math.Abs(res.MinDemerits)+1e-6 {
 			how := fmt.Sprintf("the minimum over all %d breakings", res.Breakings)
 			if long {
 				how = "the minimum found by the dynamic programme"
 			}
-			o.Fail("suboptimal", "returned breaking %v has demerits %.9g, %s is %.9g; %s", pos, dem, how, res.MinDemerits, c17Str(c))
+			if !borderline() {
+				o.Fail("suboptimal", "returned breaking %v has demerits %.9g, %s is %.9g; %s", pos, dem, how, res.MinDemerits, c17Str(c))
+			}
 		}
 	case res.Shrinkable:
 		o.Count("relaxed_instances", 1)
 		if !ok {
-			o.Fail("false-overflow", "Linebreak reports overflow although a breaking with all ratios >= -1 exists; %s", c17Str(c))
+			if !borderline() {
+				o.Fail("false-overflow", "Linebreak reports overflow although a breaking with all ratios >= -1 exists; %s", c17Str(c))
+			}
 		}
 		if minR < -1-1e-9 {
-			o.Fail("relaxed-overfull", "returned breaking %v has a line with ratio %.6g < -1 although a breaking without overfull lines exists; %s", pos, minR, c17Str(c))
+			if !borderline() {
+				o.Fail("relaxed-overfull", "returned breaking %v has a line with ratio %.6g < -1 although a breaking without overfull lines exists; %s", pos, minR, c17Str(c))
+			}
 		} else if maxR > res.MinMaxRatio*(1+1e-9)+1e-9 {
-			o.Fail("over-relaxed", "returned breaking %v stretches to ratio %.9g, ratio %.9g suffices; %s", pos, maxR, res.MinMaxRatio, c17Str(c))
+			if !borderline() {
+				o.Fail("over-relaxed", "returned breaking %v stretches to ratio %.9g, ratio %.9g suffices; %s", pos, maxR, res.MinMaxRatio, c17Str(c))
+			}
 		}
 	default:
 		o.Count("overflow_instances", 1)
 		if ok {
-			o.Fail("missed-overflow", "no breaking can shrink every line to fit, but Linebreak reports ok; %s", c17Str(c))
+			if !borderline() {
+				o.Fail("missed-overflow", "no breaking can shrink every line to fit, but Linebreak reports ok; %s", c17Str(c))
+			}
 		}
 	}
 }
@@ -456,6 +549,7 @@ func init() {
 			{Name: "mixed", Quick: 1500, Thorough: 50000, Gen: genC17("mixed"), WitnessOnly: true, Note: "justified and ragged-right (negative stretch) spaces mixed in one paragraph, which the library itself never emits: 3e-4 infeasible / over-relaxed / sub-optimal results"},
 			{Name: "grid", Quick: 1500, Thorough: 50000, Gen: genC17("grid")},
 			{Name: "paragraph", Quick: 8000, Thorough: 200000, Gen: genC17Paragraph},
+			{Name: "glueless", Quick: 3000, Thorough: 100000, Gen: genC17Glueless, Note: "boxes separated mostly by penalties on a narrow measure: lines without stretchable glue, relaxation of the stretch limit"},
 			{Name: "tuning", Quick: 4000, Thorough: 100000, Gen: genC17Tuning, Note: "paragraphs with many flagged penalties under other values of Tolerance, DemeritsLine, DemeritsFlagged, DemeritsFitness"},
 			{Name: "long", Quick: 60000, Thorough: 600000, Gen: genC17Long},
 		},
